@@ -2,6 +2,7 @@ package translate
 
 import (
 	"fmt"
+	"os"
 	"strings"
 )
 
@@ -152,7 +153,7 @@ func term(n *Node, ctx int) string {
 		return term(n.Args[1], ctx)
 	}
 
-	panic("go2lean: cannot render " + n.Op)
+	panic(fmt.Sprintf("go2lean: cannot render %s (%d args)", n.Op, len(n.Args)))
 }
 
 func ucallText(n *Node) string {
@@ -390,6 +391,13 @@ func simpleEff(n *Node) bool {
 }
 
 func (d *Def) leafEff(n *Node) string {
+	if os.Getenv("GO2LEAN_DEBUG") != "" {
+		fmt.Fprintf(os.Stderr, "leafEff %s %s\n", n.Op, n.Name)
+		for _, a := range n.Args {
+			fmt.Fprintf(os.Stderr, "   arg %s %s\n", a.Op, a.Name)
+		}
+	}
+
 	switch n.Op {
 	case "ret":
 		return "Go.pure " + term(n.Args[0], precAtom)
